@@ -305,13 +305,25 @@ theorem good_killChild {s : S} (h : Good s) (c : Nat) : Good (killChild s c) := 
   · rename_i hst; exact good_fail_after h c hst s h (Frame.refl s)
   · exact good_release h c
 
+theorem good_killChildren {s : S} (h : Good s) (kids : List Nat) : Good (killChildren s kids) := by
+  unfold killChildren
+  induction kids generalizing s with
+  | nil => exact h
+  | cons k rest ih => exact ih (good_killChild h k)
+
+theorem frame_killChildren (s : S) (kids : List Nat) : Frame s (killChildren s kids) := by
+  unfold killChildren
+  induction kids generalizing s with
+  | nil => exact Frame.refl s
+  | cons k rest ih => exact (frame_killChild s k).trans (ih _)
+
 theorem good_killSubtree {s : S} (h : Good s) (fuel : Nat) (l : List Nat) : Good (killSubtree fuel s l) := by
   induction fuel generalizing s l with
   | zero => simpa [killSubtree] using h
   | succ n ih =>
     cases l with
     | nil => simpa [killSubtree] using h
-    | cons c rest => simp only [killSubtree]; exact ih (good_killChild h c) _
+    | cons c rest => simp only [killSubtree]; exact ih (good_killChildren h _) _
 
 theorem frame_killSubtree (s : S) (fuel : Nat) (l : List Nat) : Frame s (killSubtree fuel s l) := by
   induction fuel generalizing s l with
@@ -319,7 +331,140 @@ theorem frame_killSubtree (s : S) (fuel : Nat) (l : List Nat) : Frame s (killSub
   | succ n ih =>
     cases l with
     | nil => simpa [killSubtree] using Frame.refl s
-    | cons c rest => simp only [killSubtree]; exact (frame_killChild s c).trans (ih _ _)
+    | cons c rest => simp only [killSubtree]; exact (frame_killChildren s _).trans (ih _ _)
+
+/-! ### fuel of `killSubtree` -/
+
+/-- number of cells that are linked under some supervisor -/
+def linkedCount (s : S) : Nat := s.actors.countP (·.linked)
+
+theorem countP_modify_unlink (l : List Actor) (k : Nat) (g : Actor → Actor) (hg : ∀ x, (g x).linked = false)
+    (x : Actor) (hx : l[k]? = some x) (hl : x.linked = true) :
+    (l.modify k g).countP (·.linked) + 1 = l.countP (·.linked) := by
+  induction l generalizing k with
+  | nil => simp at hx
+  | cons a t ih =>
+    cases k with
+    | zero =>
+      simp only [List.getElem?_cons_zero, Option.some.injEq] at hx
+      subst hx
+      simp [List.modify_zero_cons, List.countP_cons, hg, hl]
+    | succ k =>
+      simp only [List.getElem?_cons_succ] at hx
+      have := ih k hx
+      simp only [List.modify_succ_cons, List.countP_cons]
+      omega
+
+/-- what `release` does to the record of the released cell / the failed-start flag -/
+def relF (x : Actor) : Actor :=
+  { x with phase := .stopped, groups := [], monitors := [], mailbox := [], casts := 0, linked := false, pending := [] }
+def flagF (x : Actor) : Actor := { x with failedStart := true }
+
+/-- a killed cell: only its own record changes, and it is linked nowhere afterwards -/
+theorem killChild_actors (s : S) (c : Nat) :
+    ∃ g : Actor → Actor, (∀ x, (g x).linked = false) ∧ (killChild s c).actors = s.actors.modify c g := by
+  unfold killChild release
+  cases hc : s.actors[c]? with
+  | none =>
+    refine ⟨fun x => { x with linked := false }, fun _ => rfl, ?_⟩
+    have hlen : s.actors.length ≤ c := by
+      rcases Nat.lt_or_ge c s.actors.length with h | h
+      · rw [List.getElem?_eq_getElem h] at hc; cases hc
+      · exact h
+    have hnm : s.actors.modify c (fun x => { x with linked := false }) = s.actors := by
+      apply List.ext_getElem?
+      intro i
+      rw [List.getElem?_modify]
+      by_cases hi : c = i
+      · subst hi; simp [hc]
+      · simp [hi]
+    simp only [isStarting, hc, hnm]
+    simp
+  | some x =>
+    simp only
+    split
+    · refine ⟨fun y => flagF (relF y), fun _ => rfl, ?_⟩
+      simp [setActor, List.modify_modify_eq, Function.comp_def, flagF, relF]
+    · refine ⟨relF, fun _ => rfl, ?_⟩
+      simp only [setActor]
+      rfl
+
+theorem killChild_other (s : S) (c k : Nat) (h : c ≠ k) : (killChild s c).actors[k]? = s.actors[k]? := by
+  obtain ⟨g, _, hg⟩ := killChild_actors s c
+  rw [hg, List.getElem?_modify_ne _ _ h]
+
+theorem linkedCount_killChild (s : S) (c : Nat) (x : Actor) (hx : s.actors[c]? = some x) (hl : x.linked = true) :
+    linkedCount (killChild s c) + 1 = linkedCount s := by
+  obtain ⟨g, hg1, hg2⟩ := killChild_actors s c
+  unfold linkedCount
+  rw [hg2]
+  exact countP_modify_unlink _ c g hg1 x hx hl
+
+/-- killing `kids` (distinct, all linked) lowers the number of linked cells by exactly `|kids|` -/
+theorem linkedCount_killChildren (kids : List Nat) : ∀ s : S, kids.Nodup →
+    (∀ k ∈ kids, ∃ x, s.actors[k]? = some x ∧ x.linked = true) →
+    linkedCount (killChildren s kids) + kids.length = linkedCount s := by
+  induction kids with
+  | nil => intro s _ _; simp [killChildren]
+  | cons k rest ih =>
+    intro s hnd hall
+    obtain ⟨x, hx, hl⟩ := hall k (by simp)
+    have h1 := linkedCount_killChild s k x hx hl
+    have hnd' := (List.nodup_cons.mp hnd)
+    have h2 := ih (killChild s k) hnd'.2 (fun k' hk' => by
+      obtain ⟨y, hy, hyl⟩ := hall k' (by simp [hk'])
+      refine ⟨y, ?_, hyl⟩
+      rw [killChild_other s k k' (fun h => hnd'.1 (h ▸ hk'))]; exact hy)
+    simp only [killChildren, List.foldl_cons, List.length_cons] at h2 ⊢
+    omega
+
+theorem childrenOf_nodup (s : S) (c : Nat) : (childrenOf s c).Nodup := by
+  unfold childrenOf
+  exact List.Pairwise.filter _ List.nodup_range
+
+theorem childrenOf_linked (s : S) (c k : Nat) (hk : k ∈ childrenOf s c) :
+    ∃ x, s.actors[k]? = some x ∧ x.linked = true := by
+  unfold childrenOf at hk
+  rw [List.mem_filter] at hk
+  cases hx : s.actors[k]? with
+  | none => rw [hx] at hk; simp at hk
+  | some x =>
+    rw [hx] at hk
+    have h2 := hk.2
+    simp only [Bool.and_eq_true] at h2
+    exact ⟨x, rfl, h2.1⟩
+
+/-- **Fuel sufficiency.** `#linked cells + |worklist|` steps are enough: more fuel changes nothing.
+(Every pop takes children that are linked at that moment and kills = detaches them at once, so no
+cell is pushed twice and the potential `linkedCount + |worklist|` drops by one per pop.) -/
+theorem killSubtree_fuel (f : Nat) : ∀ (s : S) (l : List Nat), linkedCount s + l.length ≤ f →
+    killSubtree (f + 1) s l = killSubtree f s l := by
+  induction f with
+  | zero =>
+    intro s l h
+    have : l = [] := by cases l with | nil => rfl | cons _ _ => simp at h
+    subst this; simp [killSubtree]
+  | succ n ih =>
+    intro s l h
+    cases l with
+    | nil => simp [killSubtree]
+    | cons c rest =>
+      simp only [killSubtree]
+      apply ih
+      have := linkedCount_killChildren (childrenOf s c) s (childrenOf_nodup s c) (childrenOf_linked s c)
+      simp only [List.length_append, List.length_cons] at h ⊢
+      omega
+
+theorem killSubtree_fuel_add (k : Nat) : ∀ (f : Nat) (s : S) (l : List Nat), linkedCount s + l.length ≤ f →
+    killSubtree (f + k) s l = killSubtree f s l := by
+  induction k with
+  | zero => intro f s l _; rfl
+  | succ k ih =>
+    intro f s l h
+    rw [show f + (k + 1) = (f + k) + 1 from by omega, killSubtree_fuel (f + k) s l (by omega)]
+    exact ih f s l h
+
+theorem linkedCount_le (s : S) : linkedCount s ≤ s.actors.length := List.countP_le_length
 
 theorem good_failStart {s : S} (h : Good s) (a : Nat) (hst : isStarting s a = true) : Good (failStart s a) := by
   unfold failStart
@@ -393,7 +538,7 @@ theorem good_exitRunning {s : S} (h : Good s) (a : Nat) (e : Ev)
   obtain ⟨x, hx, hxr⟩ := hrun
   unfold exitRunning
   simp only [hx]
-  generalize hs1 : killSubtree s.actors.length s (childrenOf s a) = s1
+  generalize hs1 : killSubtree (s.actors.length + 1) s [a] = s1
   have hg1 : Good s1 := hs1 ▸ good_killSubtree h _ _
   have hf1 : Frame s s1 := hs1 ▸ frame_killSubtree s _ _
   -- `a` is still referable in s1
